@@ -77,8 +77,42 @@ Proof. reflexivity. Qed.
 Class Policy : Type :=
   closure_ok : sty -> genv -> option name -> params -> list instr -> ty -> Prop.
 
+(* ---- stage 6: the iterator operators ---- *)
+Definition it_of (E : ty) : ty := TFun [] (TTup [TBool; E]).
+(* the element type ReturnType computes for an iterator type (`.unwrap_or(!)`) *)
+Definition ielem (T : ty) : ty := match iter_element T with Some e => e | None => TNever end.
+Definition IT_INT : ty := it_of TInt.
+Definition IT_FLOAT : ty := it_of TFloat.
+Definition IT_STRING : ty := it_of TString.
+(* `$+` picks its reducer (int, float, string) by the run-time tag of the iterator AMONG the
+   iterator types the static type T of the operand allows (IT_c matches T).  The rule asks
+   that T is covered by the iterator types it allows, and that the result type R contains
+   the sum type of each of them.  A static element type `!` (`[]~ $+`) allows none: there
+   the implementation falls back to the run-time tag alone and yields 0 at type `!`. *)
+Definition adm_join (T : ty) (cs : list ty) : ty := join_all (filter (fun c => matches c T) cs).
+Definition kinds_ok (T R : ty) (cks : list (ty * ty)) : bool :=
+  forallb (fun ck => implb (matches (fst ck) T) (matches (snd ck) R)) cks.
+Definition sum_ok (T R : ty) : bool :=
+  matches T (adm_join T [IT_INT; IT_FLOAT; IT_STRING]) &&
+  kinds_ok T R [(IT_INT, TInt); (IT_FLOAT, TFloat); (IT_STRING, TString)].
+Definition prod_ok (T R : ty) : bool :=
+  matches T (adm_join T [IT_INT; IT_FLOAT]) && kinds_ok T R [(IT_INT, TInt); (IT_FLOAT, TFloat)].
+
+(* the policy without closure creation and without iterator operators: it accepts the
+   reserved key only (see [iter_gate] below) *)
+Definition no_fn_policy : Policy := fun _ _ nm _ _ r => nm = Some [] /\ r = TMulti [].
+
 Section WithFlag.
 Context {FL : Policy}.
+
+(* the iterator operators go through the closure policy as well: they are allowed when the
+   policy REJECTS a reserved key (a "literal" named by the empty name, holding the operation,
+   with the ill-formed result type `TMulti []` that no closure rule can carry).  A policy that
+   accepts everything thus has no iterator rules (the proof that the constant-propagation
+   pass preserves typing needs that); a policy can tie the rejection to what the soundness
+   of the operators needs of the prelude closures (Sound5.policy_ok, Sound7.policy6). *)
+Definition iter_gate (W0 : sty) (G : genv) (i : instr) : Prop :=
+  ~ closure_ok W0 G (Some []) [] [i] (TMulti []).
 
 Inductive typed (W0 : sty) : genv -> kctx -> instr -> ty -> Prop :=
 (* ---- stage 1: expressions without store effects ---- *)
@@ -165,6 +199,32 @@ Inductive typed (W0 : sty) : genv -> kctx -> instr -> ty -> Prop :=
     typed_list W0 (closure_env None ps r ++ G) (mkK false (Some r)) body G' Ts ->
     (matches TVoid r = true \/ In TNever Ts) ->
     typed W0 G K (IAnonFn ps body r) (TFun (map snd ps) r)
+(* ---- stage 6: iterator operators ---- *)
+| T_Collect G K x T :
+    iter_gate W0 G (IUn UCollect x) -> typed W0 G K x T ->
+    matches T (it_of (ielem T)) = true ->
+    typed W0 G K (IUn UCollect x) (TArr (ielem T))
+| T_Reduce G K it init f Ti T0 Tf El R :
+    iter_gate W0 G (IReduce it init f) ->
+    typed W0 G K it Ti -> typed W0 G K init T0 -> typed W0 G K f Tf ->
+    wf_ty El = true -> matches Ti (it_of El) = true -> fn_return_type Tf = Some R ->
+    matches Tf (TFun [concat (concat T0 El) R; El] R) = true ->
+    typed W0 G K (IReduce it init f) (concat R T0)
+| T_TypeFilter G K x t T d :
+    iter_gate W0 G (ITypeFilter x t) -> typed W0 G K x T -> wf_ty t = true ->
+    is_iterator T = true -> of_type t = Some d -> vgood W0 d ->
+    typed W0 G K (ITypeFilter x t) (it_of t)
+| T_Sum G K x T :
+    iter_gate W0 G (IUn USum x) -> typed W0 G K x T -> sum_ok T (ielem T) = true ->
+    typed W0 G K (IUn USum x) (ielem T)
+| T_Product G K x T :
+    iter_gate W0 G (IUn UProduct x) -> typed W0 G K x T -> prod_ok T (ielem T) = true ->
+    typed W0 G K (IUn UProduct x) (ielem T)
+(* it \ p (partition): the checker's test [filter_ok], and the operand is an iterator *)
+| T_Partition G K l r Tl Tr El :
+    iter_gate W0 G (IBin Partition l r) -> typed W0 G K l Tl -> typed W0 G K r Tr ->
+    iter_element Tl = Some El -> matches Tl (it_of El) = true -> matches Tr (TFun [El] TBool) = true ->
+    typed W0 G K (IBin Partition l r) (TTup [TArr El; TArr El])
 
 with typed_all (W0 : sty) : genv -> kctx -> list instr -> list ty -> Prop :=
 | TAll_nil G K : typed_all W0 G K [] []
@@ -389,6 +449,21 @@ Proof.
   - (* call *) cbn [rt].
     repeat match goal with H : rt _ = Ok _ |- _ => rewrite H; clear H end. cbn [obind bin_rt].
     match goal with H : _ \/ _ |- _ => destruct H as [[_ HR]|[-> ->]]; [rewrite HR|]; reflexivity end.
+  - (* collect *) cbn [rt].
+    repeat match goal with H : rt _ = Ok _ |- _ => rewrite H; clear H end. cbn [obind un_rt].
+    unfold ielem. destruct (iter_element T); reflexivity.
+  - (* reduce *) cbn [rt].
+    repeat match goal with H : rt _ = Ok _ |- _ => rewrite H; clear H end. cbn [obind].
+    match goal with H : fn_return_type _ = Some _ |- _ => rewrite H end. reflexivity.
+  - (* sum *) cbn [rt].
+    repeat match goal with H : rt _ = Ok _ |- _ => rewrite H; clear H end. cbn [obind un_rt].
+    unfold ielem. destruct (iter_element T); reflexivity.
+  - (* product *) cbn [rt].
+    repeat match goal with H : rt _ = Ok _ |- _ => rewrite H; clear H end. cbn [obind un_rt].
+    unfold ielem. destruct (iter_element T); reflexivity.
+  - (* partition *) cbn [rt].
+    repeat match goal with H : rt _ = Ok _ |- _ => rewrite H; clear H end. cbn [obind bin_rt].
+    match goal with H : iter_element _ = Some _ |- _ => rewrite H end. reflexivity.
   - (* all cons *) cbn [rts_def]. fold rts_def.
     repeat match goal with H : _ = Ok _ |- _ => rewrite H; clear H end. reflexivity.
   - (* fields cons *) cbn [rt_fields_def]. fold rt_fields_def.
@@ -451,6 +526,12 @@ Proof.
   intros HT H. apply fold_concat_wf; [exact HT|]. rewrite Forall_forall in H. exact H.
 Qed.
 
+Lemma ielem_wf T : wf_ty T = true -> wf_ty (ielem T) = true.
+Proof.
+  intros W. unfold ielem. destruct (iter_element T) as [e|] eqn:E; [|reflexivity].
+  apply (iter_element_wf _ _ W E).
+Qed.
+
 Theorem typed_wf_all W0 :
   (forall G K i T, typed W0 G K i T -> genv_wf G -> wf_ty T = true) /\
   (forall G K es Ts, typed_all W0 G K es Ts -> genv_wf G -> forallb wf_ty Ts = true) /\
@@ -504,6 +585,16 @@ Proof.
     match goal with H : _ \/ _ |- _ => destruct H as [[_ H]|[-> ->]]; [|reflexivity] end.
     eapply fn_return_type_wf; [|eassumption]. auto.
   - (* anon fn *) assumption.
+  - (* collect *) cbn [wf_ty]. apply ielem_wf. auto.
+  - (* reduce *) apply concat_wf; [|auto]. eapply fn_return_type_wf; [|eassumption]. auto.
+  - (* type filter *) cbn [it_of wf_ty forallb]. rewrite andb_true_r. assumption.
+  - (* sum *) apply ielem_wf. auto.
+  - (* product *) apply ielem_wf. auto.
+  - (* partition *)
+    assert (We : wf_ty El = true).
+    { match goal with H : iter_element ?T = Some El |- _ =>
+        pose proof (ielem_wf T) as X; unfold ielem in X; rewrite H in X; apply X end. auto. }
+    cbn [wf_ty forallb]. rewrite We. reflexivity.
   - (* typed_all cons *) cbn [forallb]. apply andb_true_iff. split; auto.
   - (* fields nil *) assumption.
   - (* fields cons *)
